@@ -16,6 +16,13 @@
 // `cw-racy`: blocks were published but not yet read when the context was cancelled; whether handleIncoming holds
 // one of them is a race, so the line is not compared and the monitor checks the bounds instead.
 //
+// Part 1b (tied line by line): the REAL sessionWants (through bitswap/client/verifsession):
+//
+//	sw <limit>      newSessionWants(limit)
+//	req|sent|recv|cancelp <k>*   BlocksRequested | WantsSent | BlocksReceived | CancelPending
+//	next | bcast | live | rand   GetNextWants | PrepareBroadcast (idle tick) | LiveWants | RandomLiveWant (periodic search)
+//	every line ends with ` | P <queued> E [deque] L [live] O [live order]`
+//
 // Part 2 (exploration, monitors only; the model prints `ok` for these lines):
 //
 //	net <seed> <nodes> <nblocks> <latency-ms>   real bitswap nodes on a bitswap/testnet virtual network
@@ -32,6 +39,7 @@ import (
 
 	"github.com/ipfs/boxo/bitswap"
 	"github.com/ipfs/boxo/bitswap/client/verifgetter"
+	"github.com/ipfs/boxo/bitswap/client/verifsession"
 	testsession "github.com/ipfs/boxo/bitswap/testinstance"
 	tn "github.com/ipfs/boxo/bitswap/testnet"
 	mockrouting "github.com/ipfs/boxo/routing/mock"
@@ -57,13 +65,58 @@ func gen(r *vh.Rand, tier string, n int, emit func(vh.Case)) {
 	}
 	for i := 0; i < n; i++ {
 		rr := base.Fork()
-		if i%40 == 39 || (i == n-1 && n < 40) {
+		if i%50 == 49 || (i == n-1 && n < 50) {
 			_ = nnet
 			emit(vh.Case{ID: strconv.Itoa(i), Ops: []string{fmt.Sprintf("net %d %d %d %d", rr.Intn(1<<30), rr.Range(2, 6), rr.Range(1, 8), vh.Pick(rr, []int{0, 0, 1, 3}))}})
 			continue
 		}
+		if i%5 == 2 {
+			emit(genSW(rr, strconv.Itoa(i)))
+			continue
+		}
 		emit(genCore(rr, strconv.Itoa(i)))
 	}
+}
+
+// genSW: scripts over the session's want bookkeeping
+func genSW(r *vh.Rand, id string) vh.Case {
+	c := vh.Case{ID: id}
+	pool := r.Range(2, 8)
+	c.Ops = append(c.Ops, fmt.Sprintf("sw %d", vh.Pick(r, []int{1, 2, 2, 3, 4, 64, 0})))
+	ks := func() string {
+		var xs []string
+		for i, m := 0, r.Range(0, 4); i < m; i++ {
+			xs = append(xs, strconv.Itoa(r.Intn(pool)))
+		}
+		return strings.Join(xs, " ")
+	}
+	long := r.Chance(1, 12) // long enough for the liveWantsOrder clean-up (> 32 stale entries)
+	n := r.Range(4, 20)
+	if long {
+		n = r.Range(80, 140)
+	}
+	for i := 0; i < n; i++ {
+		switch x := r.Intn(100); {
+		case x < 25:
+			c.Ops = append(c.Ops, strings.TrimSpace("req "+ks()))
+		case x < 40:
+			c.Ops = append(c.Ops, "next")
+		case x < 50:
+			c.Ops = append(c.Ops, strings.TrimSpace("sent "+ks()))
+		case x < 65:
+			c.Ops = append(c.Ops, strings.TrimSpace("recv "+ks()))
+		case x < 80:
+			c.Ops = append(c.Ops, "bcast")
+		case x < 90:
+			c.Ops = append(c.Ops, strings.TrimSpace("cancelp "+ks()))
+		case x < 95:
+			c.Ops = append(c.Ops, "live")
+		default:
+			c.Ops = append(c.Ops, "rand")
+		}
+	}
+	c.Ops = append(c.Ops, "bcast", "next", "live")
+	return c
 }
 
 func shuffledInts(r *vh.Rand, n int) []int {
@@ -521,6 +574,18 @@ func netScenario(seed, nodes, nblocks, latMs int) (fails []string, kinds []strin
 			defer cancel()
 			var ch <-chan blocks.Block
 			var err error
+			if len(q.keys) == 1 && !q.session && q.servable && q.cancelAt < 0 && q.cancelMs == 0 {
+				// the synchronous entry point (getter.SyncGetBlock)
+				gctx, gcancel := context.WithTimeout(rctx, 8*time.Second)
+				b, err := me.Exchange.GetBlock(gctx, q.keys[0])
+				gcancel()
+				if err != nil {
+					addFail("net-not-delivered: GetBlock of a block held by a connected node: " + err.Error())
+				} else if !b.Cid().Equals(q.keys[0]) {
+					addFail("net-unrequested-block: GetBlock returned " + b.Cid().String())
+				}
+				return
+			}
 			if q.session {
 				ch, err = me.Exchange.NewSession(rctx).GetBlocks(rctx, q.keys)
 			} else {
@@ -750,14 +815,147 @@ func execNet(f []string, o *vh.Out) string {
 	return "ok"
 }
 
+// ---------------------------------------------------------------- part 1b: sessionWants
+
+type swState struct {
+	sw        *verifsession.SessionWants
+	cancelled map[int]bool // cancelled and not requested again: must never be returned
+	received  map[int]bool // received and not requested again
+}
+
+func idxList(m map[cid.Cid]int, cs []cid.Cid, sorted bool) string {
+	var is []int
+	for _, c := range cs {
+		is = append(is, m[c])
+	}
+	if sorted {
+		sort.Ints(is)
+	}
+	ss := make([]string, len(is))
+	for i, x := range is {
+		ss[i] = strconv.Itoa(x)
+	}
+	return "[" + strings.Join(ss, ",") + "]"
+}
+
+func execSW(w *swState, f []string, o *vh.Out) string {
+	idx := map[cid.Cid]int{}
+	for i := 0; i < 16; i++ {
+		idx[blk(i).Cid()] = i
+	}
+	var ks []cid.Cid
+	var ki []int
+	for _, t := range f[1:] {
+		ks = append(ks, blk(vh.Atoi(t)).Cid())
+		ki = append(ki, vh.Atoi(t))
+	}
+	// monitor: nothing that was cancelled (or received) and not requested again is ever returned
+	returned := func(what string, cs []cid.Cid) {
+		for _, c := range cs {
+			i := idx[c]
+			if w.cancelled[i] {
+				o.Fail("cancelled-cid-returned-by-session-wants", "%s returned CID %d after CancelPending (the session would broadcast it again)", what, i)
+			}
+			if w.received[i] {
+				o.Fail("received-cid-returned-by-session-wants", "%s returned CID %d whose block was already received", what, i)
+			}
+		}
+	}
+	res := "ok"
+	switch f[0] {
+	case "req":
+		w.sw.BlocksRequested(ks)
+		for _, i := range ki {
+			delete(w.cancelled, i)
+			delete(w.received, i)
+		}
+	case "sent":
+		w.sw.WantsSent(ks)
+	case "cancelp":
+		w.sw.CancelPending(ks)
+		for _, i := range ki {
+			w.cancelled[i] = true
+			if w.sw.IsWanted(blk(i).Cid()) {
+				o.Fail("cancelled-cid-still-wanted", "CID %d is still wanted right after CancelPending", i)
+			}
+		}
+		o.Kind("sw-cancel")
+	case "recv":
+		wanted := w.sw.BlocksReceived(ks)
+		returned("BlocksReceived", wanted)
+		for _, c := range wanted {
+			w.received[idx[c]] = true
+		}
+		res = idxList(idx, wanted, false)
+	case "next":
+		out := w.sw.GetNextWants()
+		returned("GetNextWants", out)
+		res = idxList(idx, out, false)
+		if len(out) > 0 {
+			o.Kind("sw-next")
+		}
+	case "bcast":
+		out := w.sw.PrepareBroadcast()
+		returned("PrepareBroadcast", out)
+		res = idxList(idx, out, false)
+		if len(out) > 0 {
+			o.Kind("sw-broadcast")
+			if len(w.cancelled) > 0 {
+				o.Nontrivial()
+			}
+		}
+	case "live":
+		out := w.sw.LiveWants()
+		returned("LiveWants", out)
+		res = idxList(idx, out, true)
+	case "rand":
+		c := w.sw.RandomLiveWant()
+		if c.Defined() {
+			returned("RandomLiveWant", []cid.Cid{c})
+			found := false
+			for _, l := range w.sw.LiveWants() {
+				if l == c {
+					found = true
+				}
+			}
+			if !found {
+				o.Fail("random-live-want-not-live", "RandomLiveWant returned CID %d which is not a live want", idx[c])
+			}
+		} else if w.sw.HasLiveWants() {
+			o.Fail("random-live-want-undefined", "RandomLiveWant returned nothing although there are live wants")
+		}
+	default:
+		return "bad-op"
+	}
+	elems, pending, order := w.sw.Dump()
+	if len(order) > 100 {
+		o.Kind("sw-long-order")
+	}
+	return fmt.Sprintf("%s | P %d E %s L %s O %s", res, pending, idxList(idx, elems, false), idxList(idx, w.sw.LiveWants(), true), idxList(idx, order, false))
+}
+
 func exec(c vh.Case, o *vh.Out) {
 	g := &core{}
 	defer g.stop()
+	var w *swState
 	for _, line := range c.Ops {
 		f := strings.Fields(line)
 		if len(f) == 0 {
 			o.Emit("bad-op")
 			continue
+		}
+		if f[0] == "sw" && len(f) == 2 {
+			w = &swState{sw: verifsession.NewSessionWants(vh.Atoi(f[1])), cancelled: map[int]bool{}, received: map[int]bool{}}
+			o.Kind("session-wants")
+			o.Emit("ok | P 0 E [] L [] O []")
+			continue
+		}
+		if w != nil {
+			switch f[0] {
+			case "req", "sent", "cancelp", "recv", "next", "bcast", "live", "rand":
+				o.Emit("%s", execSW(w, f, o))
+				continue
+			}
 		}
 		if f[0] == "net" {
 			o.Emit("%s", execNet(f, o))
